@@ -95,7 +95,7 @@ CHECKS = {
     design="§3 C01"),
  "C02": dict(
     technique="bounded symbolic execution (CrossHair/z3) of the real tokenizer state methods from catalogue pre-states on a symbolic continuation of arbitrary Unicode characters, differentially against an independent transcription of the WHATWG tokenizer (R1)",
-    text="For every state method of the live HTMLTokenizer class (catalogue rebuilt from /repo at check time: 119 pre-states over 7 configurations = 5 start states x last start tag x CDATA allowed/not) the real tokenizer is run from that pre-state on EVERY string of <= 2 (quick) / 3 (thorough) Unicode characters followed by end of input, "
+    text="For every state method of the live HTMLTokenizer class (catalogue rebuilt from /repo at check time: 119 pre-states over 7 configurations = 5 start states x last start tag x CDATA allowed/not) the real tokenizer is run from that pre-state on EVERY string of <= 2 Unicode characters (thorough: <= 3 from the pre-states of the data-state configuration, two prefixes per state) followed by end of input, "
          "and the emitted tokens (parse errors dropped, character tokens merged) are compared with R1. Character references: the unbounded-integer and leading-zero obligations of C14 are re-run here. Each obligation is closed over all code points by the solver (NUL, non-BMP, every delimiter class), which covers every state x next-character decision incl. EOF in every state, look-ahead (DOCTYPE/PUBLIC/SYSTEM/--/[CDATA[) and the character-reference entry points.",
     note="R1/R10 references trusted (validated on 5.2 M concrete inputs); pre-states are those the catalogue prefixes build (pending token contents concrete), continuation bounded by K; CDATA NUL relocation is a listed known finding; attributeMap replaced by an equivalent linear-scan map. " + NOTE_COMMON,
     design="§3 C02"),
